@@ -3,7 +3,7 @@ from bounded import harness, enumchecks, gen
 from bounded.corpus import corpus
 
 LABELS = ['single-3', 'nested-2', 'taken-order-differs', 'activated-by-two-choices', 'activated-by-two-nested-choices', 'inc-three-opts-1', 'theory-example', 'inc-opt-opt-1', 'inc-nested-0', 'con-LINKED-perm-2x3',
-          'forced-linked-then-conditional', 'conn-perm-2x1-0', 'conn-cond-0', 'conn2-perm', 'conn2-second-conditional', 'conn3-perm', 'conn3-middle-conditional', 'conn-group-0', 'conn-group-1', 'conn-group-unbounded-0', 'conn-group-unbounded-1', 'conn-group-unbounded-4',
+          'forced-linked-then-conditional', 'conn-perm-2x1-0', 'conn-cond-0', 'conn2-perm', 'conn-only-with-metric-no-selection-choice', 'conn2-second-conditional', 'conn3-perm', 'conn3-middle-conditional', 'conn-group-0', 'conn-group-1', 'conn-group-unbounded-0', 'conn-group-unbounded-1', 'conn-group-unbounded-4',
           'dv-3', 'met-1']
 
 
